@@ -10,25 +10,25 @@ namespace Inv
 /-- HEADLINE: nothing read from the input stream is lost, duplicated or reordered:
     forwarded ++ (read but not yet written) ++ (data still in the stream) = the whole input -/
 theorem stdin_forwarded_exactly (hi ht w p e : Bool) (o er : List Chunk) (ins : List InItem) (ho sf : Bool)
-    (n : Nat) (evs : List Ev) :
-    let s := run (S.init hi ht w p e o er ins ho sf n) evs
+    (n : Nat) (asy : Bool) (evs : List Ev) :
+    let s := run (S.init hi ht w p e o er ins ho sf n asy) evs
     s.fwd ++ s.inPending ++ dataOf s.inScript = dataOf ins :=
-  (stdinInv_run ins _ evs (stdinInv_init hi ht w p e o er ins ho sf n)).cons
+  (stdinInv_run ins _ evs (stdinInv_init hi ht w p e o er ins ho sf n asy)).cons
 
 /-- what the child received from the handler is always a prefix of the input text -/
 theorem forwarded_is_prefix (hi ht w p e : Bool) (o er : List Chunk) (ins : List InItem) (ho sf : Bool)
-    (n : Nat) (evs : List Ev) :
-    ∃ rest, dataOf ins = (run (S.init hi ht w p e o er ins ho sf n) evs).fwd ++ rest := by
-  have h := stdin_forwarded_exactly hi ht w p e o er ins ho sf n evs
+    (n : Nat) (asy : Bool) (evs : List Ev) :
+    ∃ rest, dataOf ins = (run (S.init hi ht w p e o er ins ho sf n asy) evs).fwd ++ rest := by
+  have h := stdin_forwarded_exactly hi ht w p e o er ins ho sf n asy evs
   exact ⟨_, by rw [← h, List.append_assoc]⟩
 
 /-- once the stream is exhausted and nothing is pending, the child has received exactly the input -/
 theorem exhausted_input_fully_forwarded (hi ht w p e : Bool) (o er : List Chunk) (ins : List InItem) (ho sf : Bool)
-    (n : Nat) (evs : List Ev) :
-    let s := run (S.init hi ht w p e o er ins ho sf n) evs
+    (n : Nat) (asy : Bool) (evs : List Ev) :
+    let s := run (S.init hi ht w p e o er ins ho sf n asy) evs
     s.inScript = [] → s.inPending = [] → s.fwd = dataOf ins := by
   intro s h1 h2
-  have h := stdin_forwarded_exactly hi ht w p e o er ins ho sf n evs
+  have h := stdin_forwarded_exactly hi ht w p e o er ins ho sf n asy evs
   simp only [] at h
   rw [h1, h2] at h
   simpa [dataOf] using h
@@ -36,13 +36,13 @@ theorem exhausted_input_fully_forwarded (hi ht w p e : Bool) (o er : List Chunk)
 /-- the child's stdin is closed at most once, exactly when the handler saw EOF without a pty,
     and never under a pty -/
 theorem eof_closes_at_most_once (hi ht w p e : Bool) (o er : List Chunk) (ins : List InItem) (ho sf : Bool)
-    (n : Nat) (evs : List Ev) :
-    let s := run (S.init hi ht w p e o er ins ho sf n) evs
+    (n : Nat) (asy : Bool) (evs : List Ev) :
+    let s := run (S.init hi ht w p e o er ins ho sf n asy) evs
     s.closeCount ≤ 1 ∧ (s.closeCount = 1 ↔ s.inClosed = true) ∧ (s.pty = true → s.closeCount = 0) := by
-  have h := stdinInv_run ins _ evs (stdinInv_init hi ht w p e o er ins ho sf n)
+  have h := stdinInv_run ins _ evs (stdinInv_init hi ht w p e o er ins ho sf n asy)
   have hc := h.closes
   have hp := h.ptyNoClose
-  generalize run (S.init hi ht w p e o er ins ho sf n) evs = s at hc hp
+  generalize run (S.init hi ht w p e o er ins ho sf n asy) evs = s at hc hp
   simp only []
   refine ⟨?_, ?_, ?_⟩
   · rw [hc]; split <;> omega
@@ -72,13 +72,13 @@ theorem echo_table (p t : Bool) :
 
 /-- what is mirrored is exactly the forwarded text when echoing, and nothing otherwise -/
 theorem echo_mirrors_forwarded (hi ht w p e : Bool) (o er : List Chunk) (ins : List InItem) (ho sf : Bool)
-    (n : Nat) (evs : List Ev) :
-    let s := run (S.init hi ht w p e o er ins ho sf n) evs
+    (n : Nat) (asy : Bool) (evs : List Ev) :
+    let s := run (S.init hi ht w p e o er ins ho sf n asy) evs
     s.echoed = if e then s.fwd else [] := by
-  have h := (stdinInv_run ins _ evs (stdinInv_init hi ht w p e o er ins ho sf n)).echoed
-  have ho' := opts_run (S.init hi ht w p e o er ins ho sf n) evs
+  have h := (stdinInv_run ins _ evs (stdinInv_init hi ht w p e o er ins ho sf n asy)).echoed
+  have ho' := opts_run (S.init hi ht w p e o er ins ho sf n asy) evs
   simp only [S.opts, Prod.mk.injEq] at ho'
-  have he : (run (S.init hi ht w p e o er ins ho sf n) evs).echo = e := by
+  have he : (run (S.init hi ht w p e o er ins ho sf n asy) evs).echo = e := by
     have := ho'.2.2.2.2.1; simpa [S.init] using this
   simp only []
   rw [h, he]
@@ -86,20 +86,20 @@ theorem echo_mirrors_forwarded (hi ht w p e : Bool) (o er : List Chunk) (ins : L
 /-- a disabled input stream forwards nothing and closes nothing (watcher responses are written by
     the reader threads, not by the handler) -/
 theorem disabled_input_forwards_nothing (ht w p e : Bool) (o er : List Chunk) (ins : List InItem) (ho sf : Bool)
-    (n : Nat) (evs : List Ev) :
-    let s := run (S.init false ht w p e o er ins ho sf n) evs
+    (n : Nat) (asy : Bool) (evs : List Ev) :
+    let s := run (S.init false ht w p e o er ins ho sf n asy) evs
     s.fwd = [] ∧ s.closeCount = 0 := by
-  have h := stdinInv_run ins _ evs (stdinInv_init false ht w p e o er ins ho sf n)
-  have ho' := opts_run (S.init false ht w p e o er ins ho sf n) evs
+  have h := stdinInv_run ins _ evs (stdinInv_init false ht w p e o er ins ho sf n asy)
+  have ho' := opts_run (S.init false ht w p e o er ins ho sf n asy) evs
   simp only [S.opts, Prod.mk.injEq] at ho'
   exact h.noStdin (by have := ho'.1; simpa [S.init] using this)
 
 /-- the handler leaves its loop only after the program was flagged as finished -/
 theorem handler_exits_only_after_finish (hi ht w p e : Bool) (o er : List Chunk) (ins : List InItem) (ho sf : Bool)
-    (n : Nat) (evs : List Ev) :
-    let s := run (S.init hi ht w p e o er ins ho sf n) evs
+    (n : Nat) (asy : Bool) (evs : List Ev) :
+    let s := run (S.init hi ht w p e o er ins ho sf n asy) evs
     s.inPc = .done → s.fin = true :=
-  (stdinInv_run ins _ evs (stdinInv_init hi ht w p e o er ins ho sf n)).doneFin
+  (stdinInv_run ins _ evs (stdinInv_init hi ht w p e o er ins ho sf n asy)).doneFin
 
 /-- the don't-care region: input that only becomes available after the command has exited need not
     be forwarded - the handler stops once the program is finished and a read yields nothing -/
